@@ -570,6 +570,18 @@ class Engine:
                 raise Unsupported("del target")
 
     def st_If(self, st, fr):
+        # if-conversion: `if c: yield a  else: yield b` (and the same with one assignment to one name) with pure
+        # operands is executed as a single path with an if-then-else term
+        if len(st.body) == 1 and len(st.orelse) == 1:
+            a, b = st.body[0], st.orelse[0]
+            if isinstance(a, ast.Expr) and isinstance(b, ast.Expr) and isinstance(a.value, ast.Yield) \
+                    and isinstance(b.value, ast.Yield) and _is_pure_atom(a.value.value) and _is_pure_atom(b.value.value) \
+                    and fr.gen_out is not None:
+                c = ops.truth(self.ev(st.test, fr))
+                if not isinstance(c, bool):
+                    va, vb = self.ev(a.value.value, fr), self.ev(b.value.value, fr)
+                    fr.gen_out.append(ops.s_ite(c, va, vb))
+                    return
         if self.decide(self.ev(st.test, fr)):
             self.exec_block(st.body, fr)
         else:
@@ -790,12 +802,14 @@ class Engine:
             ghost0 = z3.K(ks, z3.BoolVal(False))
         else:
             ghost0 = 0 if is_for else None
-        for (name, c) in spec.inv(self, fr, ghost0):
-            self.prove("%s/inv-entry:%s" % (tag, name), c, kind="loop")
-        which = self.nondet(2)          # 0: arbitrary iteration, 1: exit
         names = self.assigned_names(st)
         if fr.gen_out is not None and "__yield__" not in names and _contains_yield(st):
             names.append("__yield__")
+            if not isinstance(fr.gen_out, _GenOut):
+                fr.gen_out = _GenOut(self, fr.gen_out, spec.fresh.get("__yield__", ("seq", "tuple", "int")))
+        for (name, c) in spec.inv(self, fr, ghost0):
+            self.prove("%s/inv-entry:%s" % (tag, name), c, kind="loop")
+        which = self.nondet(2)          # 0: arbitrary iteration, 1: exit
         for name in names:
             if name == "__yield__":
                 if not isinstance(fr.gen_out, _GenOut):
@@ -882,6 +896,8 @@ class Engine:
             return (mk_int(i.t + as_int_term(it.start)), self.iter_elem(it.inner, i))
         if isinstance(it, _Zip):
             return tuple(self.iter_elem(x, i) for x in it.parts)
+        if isinstance(it, _Partition):
+            return tuple(self.seq_index_nocheck(it.seq, mk_int(i.t * it.n + k)) for k in range(it.n))
         return self.seq_index_nocheck(it, i)
 
     def seq_index_nocheck(self, s, i):
@@ -894,7 +910,16 @@ class Engine:
         if isinstance(s, _Range):
             return mk_int(as_int_term(s.start) + as_int_term(i) * s.step)
         t = ops.seq_term(s)
+        if isinstance(s, SSeq):
+            return self.elem_read(s, t[as_int_term(i)])
         return ops.elem_value(t[as_int_term(i)], ops.seq_elem(s))
+
+    def elem_read(self, s, et):
+        """value of one element of a symbolic sequence; its known range becomes a fact"""
+        et = z3.simplify(et)
+        if s.elem == "int" and s.rng is not None and not z3.is_int_value(et):
+            self.assume(SBool(z3.And(et >= s.rng[0], et <= s.rng[1])))
+        return ops.elem_value(et, s.elem)
 
     def concrete_items(self, it):
         """list of values if the iterable has a concrete length, else None"""
@@ -939,7 +964,7 @@ class Engine:
         if isinstance(it, SSeq):
             n = concrete_int(z3.Length(it.t))
             if n is not None and n <= 64:
-                return [ops.elem_value(z3.simplify(it.t[k]), it.elem) for k in range(n)]
+                return [self.elem_read(it, it.t[k]) for k in range(n)]
             return None
         if isinstance(it, Obj) and "__fields__" in it.fields:
             return [it.fields[k] for k in it.fields["__fields__"]]
@@ -973,7 +998,7 @@ class Engine:
             ln = ops.length(val)
             if not self.decide(ops.py_eq(ln, n)):
                 self.raise_exc(ValueError, "unpack")
-            return [ops.elem_value(val.t[k], val.elem) for k in range(n)]
+            return [self.elem_read(val, val.t[k]) for k in range(n)]
         raise Unsupported("unpacking of %r" % (val,))
 
     def set_attr(self, base, name, val):
@@ -1484,7 +1509,7 @@ class Engine:
             if not self.decide(ok):
                 self.raise_exc(IndexError, "index out of range")
             jt = j if isinstance(j, z3.ExprRef) else z3.IntVal(j)
-            return ops.elem_value(s.t[jt], s.elem)
+            return self.elem_read(s, s.t[jt])
         if isinstance(base, Obj):
             inner = base.fields.get("__tuple__")
             if inner is not None:
@@ -1502,7 +1527,7 @@ class Engine:
             except KeyError:
                 self.raise_exc(KeyError, key)
         for tb in self.tables.values():
-            if tb.table is d:
+            if tb.get_table(self.loader) is d:
                 return tb.lookup(self, key)
         raise Unsupported("symbolic lookup in a constant table without a validated summary")
 
@@ -1654,6 +1679,14 @@ class _Range:
         self.step = step
 
 
+class _Partition:
+    """toolz.partition(n, s) / partition_all(n, s) with len(s) a multiple of n: tuples of n consecutive elements"""
+
+    def __init__(self, n, seq):
+        self.n = n
+        self.seq = seq
+
+
 class _Super:
     def __init__(self, fr):
         self.fr = fr
@@ -1702,6 +1735,10 @@ class _GenOut:
 
     def __bool__(self):
         return True
+
+
+def _is_pure_atom(node):
+    return node is not None and isinstance(node, (ast.Constant, ast.Name))
 
 
 def _contains_yield(st):
